@@ -208,6 +208,22 @@ func init() {
 		k(st, scalar(ref))
 	}
 	libSpecs["bytes.NewBuffer"] = libSpecs["bytes.NewReader"]
+	// (*bytes.Buffer).Bytes / String-free view: a slice that holds the buffer's content; which buffer it came from is kept in the
+	// ghost array "bufsrc" (spec: bufferOf(s)); the content itself is not modelled here
+	libSpecs["(*bytes.Buffer).Bytes"] = func(e *Engine, st *State, fn *ssa.Function, args []Val, pos token.Pos, k Kont) {
+		tb := e.tb
+		recv := args[0]
+		if px, ok := recv.ann("").(*PtrX); ok && px.Kind == PLocal && st.Cells[px.Cell].Spill != nil {
+			recv = scalar(st.Cells[px.Cell].Spill)
+		}
+		e.oblige(st, "nil", "", pos, tb.Neq(recv.T[0], tb.Int(0)), "method call on nil *bytes.Buffer")
+		ln := tb.Fresh("buflen", SInt)
+		e.assume(st, tb.Ge(ln, tb.Int(0)))
+		s := e.allocSlice(st, types.Typ[types.Uint8], ln, ln)
+		cur := e.ghostArr(st, "bufsrc", SArrI)
+		e.setGhost(st, "bufsrc", tb.Store(cur, s.slArr(), recv.T[0]))
+		k(st, s)
+	}
 	// buffering wrappers: a new object (never the wrapped reader/writer itself); what it reads ahead or holds back is not modelled
 	for _, n := range []string{"bufio.NewReader", "bufio.NewReaderSize", "bufio.NewWriter", "bufio.NewWriterSize", "io.LimitReader", "io.TeeReader", "io.MultiReader", "io.MultiWriter"} {
 		libSpecs[n] = func(e *Engine, st *State, fn *ssa.Function, args []Val, pos token.Pos, k Kont) {
